@@ -170,9 +170,10 @@ const KNOWN_CPU_BITS: u32 = 0x80000 | 0xc0 | 0x40 | 0x20000 | 0x100000 | 0x4000_
 #[kani::unwind(34)]
 fn c02_q_context_read_selects_arm_layout() {
     let e = any_endian();
-    let mut sysbytes = [0u8; 56];
-    put_u16(&mut sysbytes, 0, 5, e); // PROCESSOR_ARCHITECTURE_ARM
-    let si = MinidumpSystemInfo::read(&sysbytes, &sysbytes, e, None).unwrap();
+    // MinidumpContext::read only looks at system_info.raw.processor_architecture; an all-zero
+    // MinidumpSystemInfo is a valid value (integers, Os::Windows, Cpu::X86, two None strings)
+    let mut si: MinidumpSystemInfo = unsafe { std::mem::zeroed() };
+    si.raw.processor_architecture = 5; // PROCESSOR_ARCHITECTURE_ARM
     let mut buf = [0u8; 368];
     let flags: u32 = kani::any();
     let regs: [u32; 16] = kani::any();
